@@ -134,10 +134,17 @@ def _fix_undefined_variables(source: str, variables: Collection[str]) -> str:
 
     lines = source.splitlines()
     change_count = -len(lines)
+    # A docstring may span many lines. Nothing must be inserted before its last line.
+    root = core.parse(source)
+    if root.body and core.match_template(root.body[0], ast.Expr(value=ast.Constant(value=str))):
+        docstring_end_lineno = root.body[0].end_lineno
+    else:
+        docstring_end_lineno = 0
     lineno = next(
         i
         for i, line in enumerate(lines)
-        if not line.startswith("#")
+        if i >= docstring_end_lineno
+        and not line.startswith("#")
         and not line.startswith("'''")
         and not line.startswith('"""')
         and not line.startswith("from __future__ import")
